@@ -104,20 +104,64 @@ pub fn emit_stream(sink: &mut Sink, cfg: &str, doc: &[u8], k: usize, r: &mut Rng
     sink.case("sfault", &[cfg, kn, &k.to_string(), &hexf(doc)], &out.join(","), "stream-fault", true);
 }
 
-/// writer accepting `m` bytes in total (short writes, Interrupted in between), then failing
-struct FaultWriter { acc: Vec<u8>, bufs: Vec<Vec<u8>>, m: usize, sizes: Vec<usize>, i: usize, kind: ErrorKind, intr: u64 }
-impl Write for FaultWriter {
-    fn write(&mut self, buf: &[u8]) -> io::Result<usize> {
-        if self.intr % 3 == 1 { self.intr /= 3; return Err(io::Error::new(ErrorKind::Interrupted, "interrupted")); }
-        self.intr = self.intr / 3 + 5;
-        if self.acc.len() >= self.m { return Err(io::Error::new(self.kind, "injected fault")); }
-        if buf.is_empty() { return Ok(0); }
-        let want = self.sizes[self.i % self.sizes.len()].max(1); self.i += 1;
-        let n = want.min(buf.len()).min(self.m - self.acc.len());
-        self.acc.extend_from_slice(&buf[..n]);
-        Ok(n)
+// ---------------------------------------------------------------------------------------------------------------
+// writer side. The policy of the writer is a *script*: the answer to `write` call number j is item j of the script,
+// after the script `tail` for ever (never Interrupted, so every run ends). It is printed in the case line, and the
+// driver runs `Model.Write.toWriter` against `Model.Write.Writer.script` with the same script.
+
+/// kinds a script may fail with (`WriteZero`: a writer may return that kind itself, not only `write_all`)
+const WKINDS: &[(&str, ErrorKind)] = &[("BrokenPipe", ErrorKind::BrokenPipe), ("TimedOut", ErrorKind::TimedOut),
+    ("UnexpectedEof", ErrorKind::UnexpectedEof), ("Other", ErrorKind::Other), ("InvalidData", ErrorKind::InvalidData),
+    ("WriteZero", ErrorKind::WriteZero)];
+
+/// one answer: `s<n>` = `Ok(min(n, buf.len()))` (n >= 1), `z` = `Ok(0)`, `i` = `Err(Interrupted)`, `e<Kind>` = `Err(kind)`
+#[derive(Clone, Copy, Debug, PartialEq)]
+pub enum Resp { Short(usize), Zero, Intr, Fail(ErrorKind) }
+
+fn resp_str(r: &Resp) -> String {
+    match r { Resp::Short(n) => format!("s{}", n), Resp::Zero => "z".into(), Resp::Intr => "i".into(),
+              Resp::Fail(k) => format!("e{}", WKINDS.iter().find(|x| x.1 == *k).map(|x| x.0).unwrap_or("Other")) }
+}
+fn script_str(s: &[Resp]) -> String { if s.is_empty() { "-".into() } else { s.iter().map(resp_str).collect::<Vec<_>>().join(".") } }
+fn parse_resp(t: &str) -> Resp {
+    match t.as_bytes()[0] {
+        b's' => Resp::Short(t[1..].parse().expect("short-write size")),
+        b'z' => Resp::Zero, b'i' => Resp::Intr,
+        b'e' => Resp::Fail(WKINDS.iter().find(|x| x.0 == &t[1..]).map(|x| x.1).expect("error kind")),
+        _ => panic!("bad script item {:?}", t),
     }
-    /// what the serializer hands over (one `write_all` per buffer); then std's `write_all` loop, verbatim
+}
+fn parse_script(t: &str) -> Vec<Resp> { if t == "-" { vec![] } else { t.split('.').map(parse_resp).collect() } }
+
+/// the state shared by the two writers below
+struct ScriptCore { script: Vec<Resp>, tail: Resp, calls: usize, acc: Vec<u8> }
+impl ScriptCore {
+    fn new(script: &[Resp], tail: Resp) -> Self { ScriptCore { script: script.to_vec(), tail, calls: 0, acc: vec![] } }
+    fn write(&mut self, buf: &[u8]) -> io::Result<usize> {
+        let r = *self.script.get(self.calls).unwrap_or(&self.tail);
+        self.calls += 1;
+        assert!(self.calls < 10_000_000, "runaway writer");
+        match r {
+            Resp::Short(n) => { let n = n.max(1).min(buf.len()); self.acc.extend_from_slice(&buf[..n]); Ok(n) }
+            Resp::Zero => Ok(0),
+            Resp::Intr => Err(io::Error::new(ErrorKind::Interrupted, "interrupted")),
+            Resp::Fail(k) => Err(io::Error::new(k, "injected fault")),
+        }
+    }
+}
+
+/// the writer as an application would write it: `write` only — `write_all` is std's provided method
+struct PlainWriter(ScriptCore);
+impl Write for PlainWriter {
+    fn write(&mut self, buf: &[u8]) -> io::Result<usize> { self.0.write(buf) }
+    fn flush(&mut self) -> io::Result<()> { panic!("to_writer must not flush") }
+}
+
+/// the same writer, additionally recording every buffer handed to `write_all` (which therefore has to be overridden:
+/// std's loop, verbatim; `PlainWriter` checks that the two behave alike)
+struct RecWriter { core: ScriptCore, bufs: Vec<Vec<u8>> }
+impl Write for RecWriter {
+    fn write(&mut self, buf: &[u8]) -> io::Result<usize> { self.core.write(buf) }
     fn write_all(&mut self, mut buf: &[u8]) -> io::Result<()> {
         self.bufs.push(buf.to_vec());
         while !buf.is_empty() {
@@ -130,33 +174,109 @@ impl Write for FaultWriter {
         }
         Ok(())
     }
-    fn flush(&mut self) -> io::Result<()> { Ok(()) }
+    fn flush(&mut self) -> io::Result<()> { panic!("to_writer must not flush") }
 }
 
-pub fn emit_write(sink: &mut Sink, cfg: &str, p: &Prog, pretty: bool, r: &mut Rng) {
-    let full = if pretty { serde_json::to_vec_pretty(p) } else { serde_json::to_vec(p) };
-    let full = match full { Ok(f) => f, Err(_) => return };
-    let e = enc_prog(p);
-    for m in 0..=full.len() + 1 {
-        if full.len() > 40 && !r.chance(1, 4) && m != full.len() { continue; }
-        let (kn, kind) = *r.pick(KINDS);
-        let sizes = { let s = chunk_sizes(r); if s.is_empty() { vec![4096] } else { s } };
-        let mut w = FaultWriter { acc: vec![], bufs: vec![], m, sizes, i: 0, kind, intr: r.next() % 729 };
-        let res = std::panic::catch_unwind(std::panic::AssertUnwindSafe(|| {
-            let rr = if pretty { serde_json::to_writer_pretty(&mut w, p) } else { serde_json::to_writer(&mut w, p) };
-            match rr { Ok(()) => "OK".to_string(), Err(e) => show_io(&e) }
-        })).unwrap_or("PANIC".into());
-        // buffers as handed to write(): a short write re-offers the rest, which is a suffix of a buffer
-        let utf8 = w.bufs.iter().all(|b| std::str::from_utf8(b).is_ok() || true);
-        let _ = utf8;
-        let bufs: Vec<String> = w.bufs.iter().map(|b| hexf(b)).collect();
-        sink.case("wfault", &[cfg, if pretty { "p" } else { "c" }, kn, &m.to_string(), &e, &hexf(&full)],
-                  &format!("{}|{}|{}", res, hexf(&w.acc), bufs.join(".")), &format!("write:{}:{}", if pretty { "pretty" } else { "compact" }, if res == "OK" { "ok" } else { "io" }), m > 0);
+fn wkind_name(k: ErrorKind) -> String { WKINDS.iter().find(|x| x.1 == k).map(|x| x.0.to_string()).unwrap_or(format!("{:?}", k)) }
+fn show_wio(e: &serde_json::Error) -> String {
+    if e.classify() == serde_json::error::Category::Io {
+        format!("IO:{}", e.io_error_kind().map(wkind_name).unwrap_or("?".into()))
+    } else {
+        // the serializer's own errors (as `class` in c03.rs)
+        let m = e.to_string();
+        if m.starts_with("key must be a string") { "ERR:KeyMustBeAString".into() }
+        else if m.starts_with("float key must be finite") { "ERR:FloatKeyMustBeFinite".into() }
+        else { format!("ERR:Other:{}", m.replace(' ', "_")) }
     }
 }
 
-pub fn replay(_sink: &mut Sink, toks: &[&str]) {
-    eprintln!("C13 cases depend on the PRNG-chosen chunking; replay by re-running ./check C13 with the same VERIF_SEED ({})", toks[0]);
+fn ser_into<W: Write>(w: &mut W, p: &Prog, pretty: bool) -> String {
+    std::panic::catch_unwind(std::panic::AssertUnwindSafe(|| {
+        let rr = if pretty { serde_json::to_writer_pretty(&mut *w, p) } else { serde_json::to_writer(&mut *w, p) };
+        match rr {
+            Ok(()) => "OK".to_string(),
+            // `io::Error::from(err)` must give the writer's error back (same kind), else the observation says so
+            Err(e) => { let s = show_wio(&e); let back: io::Error = e.into(); if s.starts_with("IO:") && s != format!("IO:{}", wkind_name(back.kind())) { format!("{}/into:{}", s, wkind_name(back.kind())) } else { s } }
+        }
+    })).unwrap_or("PANIC".into())
+}
+
+/// one case: the program through both writers under the script
+fn wfault_case(sink: &mut Sink, cfg: &str, p: &Prog, e: &str, pretty: bool, full: &[u8], clean: &str, script: &[Resp], tail: Resp, fam: &str) {
+    let mut w = RecWriter { core: ScriptCore::new(script, tail), bufs: vec![] };
+    let res = ser_into(&mut w, p, pretty);
+    let mut w2 = PlainWriter(ScriptCore::new(script, tail));
+    let res2 = ser_into(&mut w2, p, pretty);
+    let same = res2 == res && w2.0.acc == w.core.acc && w2.0.calls == w.core.calls;
+    let std = if same { "=".to_string() } else { format!("{}/{}/{}", res2, hexf(&w2.0.acc), w2.0.calls) };
+    let bufs: Vec<String> = w.bufs.iter().map(|b| hexf(b)).collect();
+    let class = if res == "OK" { "ok" } else if res == "IO:WriteZero" { "writezero" } else if res.starts_with("IO:") { "io" } else if res.starts_with("ERR:") { "sererr" } else { "other" };
+    let shape = if script.contains(&Resp::Intr) { "intr" } else { "nointr" };
+    sink.case("wfault", &[cfg, if pretty { "p" } else { "c" }, &script_str(script), &resp_str(&tail), e, &hexf(full), clean],
+              &format!("{}|{}|{}|{}|{}", res, hexf(&w.core.acc), w.core.calls, if bufs.is_empty() { "-".to_string() } else { bufs.join(".") }, std),
+              &format!("write:{}:{}{}:{}:{}", if pretty { "pretty" } else { "compact" }, fam, if clean == "OK" { "" } else { "-failing-prog" }, class, shape), !script.is_empty());
+}
+
+/// a script under which the writer accepts exactly `m` bytes of the buffers `bufs0` (the fault-free run) — in short
+/// writes of the cycled `sizes`, with `Interrupted` answers in between — and then answers `term`; `term` is either the
+/// tail (a writer that stays broken) or the last script item before an accept-everything tail (a transient failure:
+/// a serializer that went on writing would leave the writer with something that is not a prefix)
+fn budget_script(bufs0: &[Vec<u8>], m: usize, term: Resp, transient: bool, r: &mut Rng) -> (Vec<Resp>, Resp) {
+    let sizes = { let s = chunk_sizes(r); if s.is_empty() { vec![4096] } else { s } };
+    let intr = r.below(4);   // 0: never Interrupted
+    let (mut script, mut acc, mut si) = (vec![], 0usize, 0usize);
+    'outer: for b in bufs0 {
+        let mut rest = b.len();
+        while rest > 0 {
+            let mut k = 0; while intr > 0 && k < 3 && r.chance(1, 2 + 2 * intr as u64) { script.push(Resp::Intr); k += 1; }
+            if acc == m { break 'outer; }
+            let want = sizes[si % sizes.len()].max(1); si += 1;
+            let n = want.min(m - acc);
+            script.push(Resp::Short(n));
+            let real = n.min(rest); acc += real; rest -= real;
+        }
+    }
+    if transient { script.push(term); (script, Resp::Short(4096)) } else { (script, term) }
+}
+
+pub fn emit_write(sink: &mut Sink, cfg: &str, p: &Prog, pretty: bool, r: &mut Rng) {
+    let e = enc_prog(p);
+    // the fault-free run: the buffers as handed to write_all, the bytes a writer that takes everything ends up with
+    // (for a program whose serialisation fails by itself: what was written before that error) and the result
+    let mut w0 = RecWriter { core: ScriptCore::new(&[], Resp::Short(usize::MAX)), bufs: vec![] };
+    let clean = ser_into(&mut w0, p, pretty);
+    if clean != "OK" && !clean.starts_with("ERR:") { return; }
+    let (bufs0, full) = (w0.bufs, w0.core.acc);
+    if clean == "OK" { assert_eq!(Some(&full), (if pretty { serde_json::to_vec_pretty(p) } else { serde_json::to_vec(p) }).ok().as_ref()); }
+    let clean = clean.as_str();
+    for m in 0..=full.len() + 1 {
+        if full.len() > 40 && !r.chance(1, 4) && m != full.len() { continue; }
+        let term = if r.chance(1, 5) { Resp::Zero } else { Resp::Fail(r.pick(WKINDS).1) };
+        let transient = r.chance(1, 3);
+        let (script, tail) = budget_script(&bufs0, m, term, transient, r);
+        wfault_case(sink, cfg, p, &e, pretty, &full, clean, &script, tail, if transient { "budget-transient" } else { "budget" });
+    }
+    // scripts that know nothing about the output
+    for _ in 0..3 {
+        let n = r.below(13);
+        let script: Vec<Resp> = (0..n).map(|_| match r.below(12) {
+            0..=5 => Resp::Short(1 + r.below(9)), 6 | 7 => Resp::Short(4096), 8 | 9 => Resp::Intr,
+            10 => Resp::Zero, _ => Resp::Fail(r.pick(WKINDS).1) }).collect();
+        let tail = match r.below(5) { 0 => Resp::Short(1), 1 | 2 => Resp::Short(4096), 3 => Resp::Zero, _ => Resp::Fail(r.pick(WKINDS).1) };
+        wfault_case(sink, cfg, p, &e, pretty, &full, clean, &script, tail, "random");
+    }
+}
+
+pub fn replay(sink: &mut Sink, toks: &[&str]) {
+    if toks[0] == "wfault" && toks.len() == 8 {
+        // wfault <cfg> <c|p> <script> <tail> <prog> <hex full> <clean result>
+        let p = dec_prog(toks[5]);
+        let pretty = toks[2] == "p";
+        let full = unhex(toks[6]);
+        wfault_case(sink, toks[1], &p, toks[5], pretty, &full, toks[7], &parse_script(toks[3]), parse_resp(toks[4]), "replay");
+        return;
+    }
+    eprintln!("C13 reader cases depend on the PRNG-chosen chunking; replay by re-running ./check C13 with the same VERIF_SEED ({})", toks[0]);
 }
 
 pub fn run(sink: &mut Sink, thorough: bool, seed: u64) {
